@@ -39,6 +39,9 @@ pub enum Op {
     DestroyMutator { m: u8 },
     /// prepare_to_fork, join all workers, after_fork
     ForkCycle,
+    /// several mutator threads request a (forced) GC at the same time: helper threads act for up to `k`
+    /// other bound mutators and call in first, then the driver thread requests on behalf of `m`
+    RacingGc { m: u8, k: u8 },
     /// run probes for C07/C08/C31 at this point
     Probe { kind: u8, seed: u32 },
     /// build a chain: `n` new objects each referencing the previous, head stored in root
